@@ -46,6 +46,7 @@ var runners = map[string]runner{
 	"C14": func(t TB, p *Program) { RunC14(t, p) },
 	"C13": func(t TB, p *Program) { RunC13(t, p) },
 	"C12": func(t TB, p *Program) { RunC12(t, p) },
+	"C18": func(t TB, p *Program) { RunC18(t, p) },
 }
 
 func replayProgram(t TB, p *Program) {
